@@ -61,7 +61,7 @@ ACTION_OF = {"translate": "Translate", "scale": "Scale", "mkfield": "MkField", "
              "mul": "Mul", "sub": "Sub", "dot": "Dot", "cross": "Cross", "norm": "Norm", "orientation": "Orientation", "integrate": "Integrate",
              "fromfield": "FromField", "setsub": "SetSub", "q_meshclose": "QMeshClose", "q_fieldclose": "QFieldClose",
              "q_regionin": "QRegionIn", "q_aligned": "QAligned", "mulnum": "MulNum", "comp": "Comp", "lshift": "LShift", "diff": "Diff", "mutatevalid": "MutateValid",
-             "updateconst": "UpdateConst", "setarray": "SetArray", "selplane": "SelPlane", "selrange": "SelRange", "getsub": "GetSub",
+             "updateconst": "UpdateConst", "setarray": "SetArray", "writearray": "WriteArray", "selplane": "SelPlane", "selrange": "SelRange", "getsub": "GetSub",
              "getregion": "GetRegion", "pad": "Pad", "resample": "Resample", "h5": "H5", "ovf": "Ovf", "vtk": "Vtk", "xarray": "Xarray"}
 ALL_ACTIONS = sorted(set(ACTION_OF.values()) | {"MeshRotate90", "FieldRotate90", "SetValidArray", "SetValidNorm", "SetValidNone"})
 
@@ -93,6 +93,8 @@ def clause_of(aspect, c, is_result):
         return "DF_Sharing"
     if aspect == "ownvalid":
         return "DF_OwnValidity"
+    if aspect == "ownarray":
+        return "DF_OwnArray"
     if aspect == "shape":
         return "DF_FieldShapes"
     if op in GEO:
@@ -107,7 +109,7 @@ def clause_of(aspect, c, is_result):
         return "DF_SetSub"
     if op == "integrate" and is_result:
         return "DF_Integrate"
-    if not is_result and op not in ("setvalid", "mutatevalid", "updateconst", "setarray", "fromfield"):
+    if not is_result and op not in ("setvalid", "mutatevalid", "updateconst", "setarray", "fromfield", "writearray"):
         return "DF_OperandsUnchanged"
     if op in SEL:
         if aspect in ("geometry", "unitsdims", "counts"):
@@ -119,7 +121,7 @@ def clause_of(aspect, c, is_result):
         return "DF_Persist"
     if op in ("setvalid", "mutatevalid"):
         return "DF_SetValid"
-    if op in ("updateconst", "setarray", "fromfield"):
+    if op in ("updateconst", "setarray", "fromfield", "writearray"):
         return "DF_Update"
     if op in ALGEBRA or op == "diff":
         return "DF_ValidityRule" if aspect == "valid" else "DF_Cellwise"
@@ -456,7 +458,7 @@ for _op in ALGEBRA:
 for _op in SEL:
     FAMILY[_op] = "sel"
 FAMILY.update({"diff": "diff", "setvalid": "valid", "mutatevalid": "valid", "updateconst": "update", "setarray": "update",
-               "mkfield": "update", "fromfield": "update", "integrate": "integrate", "setsub": "setsub", "q_aligned": "q_aligned", "q_meshclose": "query", "q_fieldclose": "query",
+               "mkfield": "update", "fromfield": "update", "writearray": "update", "integrate": "integrate", "setsub": "setsub", "q_aligned": "q_aligned", "q_meshclose": "query", "q_fieldclose": "query",
                "q_regionin": "query", "h5": "h5", "ovf": "ovf", "vtk": "vtk", "xarray": "xarray"})
 FAMILY_OWNER = {"geo": {"C13"}, "algebra": {"C03"}, "sel": {"C07"}, "diff": {"C08"}, "valid": {"C08"}, "update": {"C02"}, "integrate": {"C06"}, "setsub": {"C14"}, "q_aligned": {"C14"}, "query": {"DF"},   # allclose / `in` are beyond the twenty texts
                 "h5": {"C10"}, "ovf": {"C09"}, "vtk": {"C16"}, "xarray": {"C17"}}
